@@ -1764,8 +1764,17 @@ class Interp:
                 else:
                     self.ev(s.iter, y)
                     # an iterable without model: whether the body runs at all, and in which order the values come, is
-                    # unknown - what is derived on such paths is not definite
-                    self.note_fuzzy(s, f"a loop over `{ast.unparse(s.iter)[:40]}`, an iterable the analysis has no model of")
+                    # unknown - what is derived on such paths is not definite.  Not so for a sequence held by the object
+                    # and not changed here (`for op in self._schedule`, `for i, op in enumerate(self._schedule)`): any
+                    # number of iterations with unconstrained elements is exactly what the index loop over it means
+                    it_ = s.iter
+                    if isinstance(it_, ast.Call) and isinstance(it_.func, ast.Name) and it_.func.id == "enumerate" and len(it_.args) == 1:
+                        it_ = it_.args[0]
+                    held = isinstance(it_, ast.Attribute) and isinstance(it_.value, ast.Name) and it_.value.id == "self" \
+                        and not any(isinstance(n_, ast.Attribute) and n_.attr == it_.attr and isinstance(n_.ctx, (ast.Store, ast.Del))
+                                    for n_ in ast.walk(self.fn))
+                    if not held:
+                        self.note_fuzzy(s, f"a loop over `{ast.unparse(s.iter)[:40]}`, an iterable the analysis has no model of")
                 self.assign_target(s.target, None, y)
                 if rng and all(isinstance(v, Lin) for v in rng):
                     t = Lin.sym(s.target.id)
